@@ -33,11 +33,8 @@ def run(ctx):
     ve.replay(ctx, ve.build_cases(recs, ["inside"], ctx.tier, ctx.seed, 1 if quick else 5))
     cd.replay(ctx, cd.build_cases(crecs, ["inside"], ctx.tier, ctx.seed, 1 if quick else 5, n_perms=0))
     curved_eval.run_inside3d(ctx)
-    try:
-        from .. import sphero_eval
-        sphero_eval.run_inside(ctx)
-    except ImportError:
-        ctx.notes.append("spheropolyhedra with positive radius are not yet covered by this check")
+    from .. import sphero_eval
+    sphero_eval.run_inside(ctx)
     ctx.exhaustive = False
     ctx.extra["voxel_solids"] = len(recs)
     ctx.extra["convex_solids"] = len(crecs)
@@ -49,6 +46,11 @@ def replay(rec):
     cls = rec["signature"]["cls"]
     if cls in ("Sphere", "Ellipsoid"):
         return curved_eval.replay_inside(rec)
+    if rec["detail"].get("case", {}).get("rec", {}).get("k") == "spherobox":
+        from .. import sphero_eval
+        from ..pool import _init
+        _init()
+        return [f"{s['cls']}.{s['obs']}: {s['msg']}" for s, _ in sphero_eval.eval_box_inside(rec["detail"]["case"])[0]]
     if "cells" in rec["detail"].get("case", {}).get("rec", {}):
         return ve.replay_record(rec)
     return cd.replay_record(rec)
